@@ -222,7 +222,64 @@ pub fn run(ctx: &mut Ctx) -> Result<(), Violation> {
         check_cli(&text, &file)
     });
     ctx.stage("cli-ordering-files-and-roundtrip", false, r)?;
+
+    // large ordering files (a few hundred to several thousand names, 4 KiB .. 64 KiB): the formula uses a
+    // handful of names from the beginning, the end and from around the 4 / 8 / 16 / 32 KiB offsets
+    let sizes: Vec<usize> = ctx.tier.pick(vec![120, 600, 1030, 1200, 2300, 8100], vec![120, 600, 1020, 1030, 1200, 2050, 2300, 4100, 4700, 8100, 8190]);
+    let mut jobs: Vec<(usize, usize)> = Vec::new();
+    for (i, n) in sizes.iter().enumerate() {
+        for variant in 0..ctx.tier.pick(2usize, 6usize) {
+            jobs.push((*n, i * 7 + variant));
+        }
+    }
+    let r = par_jobs(ctx, &jobs, |(n, variant), st| {
+        let (text, file) = large_ordering_case(*n, *variant);
+        st.evals(3);
+        st.class(match file.len() {
+            0..=4095 => "ordering-file<4KiB",
+            4096..=8192 => "ordering-file 4..8KiB",
+            8193..=16384 => "ordering-file 8..16KiB",
+            _ => "ordering-file>16KiB",
+        });
+        if file.len() > 4096 && st.nontrivial(fnv_str(&format!("{}|{}", text, file.len()))) {
+            st.nt_sample(|| json!({"text": text, "ordering_file_bytes": file.len(), "names": n}));
+        }
+        check_cli(&text, &file)
+    });
+    ctx.stage("cli-large-ordering-files", true, r)?;
     Ok(())
+}
+
+/// An ordering file of `n` names (8 bytes per line) and a formula over six of them.
+pub fn large_ordering_case(n: usize, variant: usize) -> (String, String) {
+    let name = |i: usize| format!("v{:06}", i);
+    let sep = ["\n", " ", ",\n", "\n\n"][variant % 4];
+    let file: String = (0..n).map(name).collect::<Vec<_>>().join(sep);
+    // names at the ends and just before / after the 4, 8, 16, 32 KiB offsets (8..10 bytes per entry)
+    let per = 7 + sep.len();
+    let mut picks: Vec<usize> = vec![0, n - 1, n / 2];
+    for off in [4096usize, 8192, 16384, 32768] {
+        let k = off / per;
+        if k + 2 < n {
+            picks.push(k - 1 + variant % 3);
+            picks.push(k + 1 + variant % 2);
+        }
+    }
+    picks.sort();
+    picks.dedup();
+    // at most six names, spread
+    while picks.len() > 6 {
+        let k = 1 + (variant + picks.len()) % (picks.len() - 2);
+        picks.remove(k);
+    }
+    let nm: Vec<String> = picks.iter().map(|i| name(*i)).collect();
+    let g = |i: usize| nm[i % nm.len()].clone();
+    let text = match variant % 3 {
+        0 => format!("{} & -({} | {}) ^ ({} => {}) | {}", g(0), g(1), g(2), g(3), g(4), g(5)),
+        1 => format!("[{}, {}, {}, {}] >= 2 & ({} | -{})", g(5), g(3), g(1), g(0), g(2), g(4)),
+        _ => format!("(exists {} # {} ^ {}) & ({} <=> {}) | ({} & {})", g(2), g(2), g(4), g(0), g(5), g(1), g(3)),
+    };
+    (text, file)
 }
 
 pub fn replay(case: &Value) -> Check {
